@@ -60,7 +60,7 @@ globals().update(
         pid="C02",
         props=["JaqalProofs/Props/C02.lean", "JaqalProofs/Lemmas/LexerRegex.lean"],
         targets=["JaqalProofs.Props.C02", "JaqalProofs.Lemmas.LexerRegex"],
-        diffs=[("harness.agents.parse_diff", 800, 8000), ("harness.agents.c02_entry", 150, 1200)],
+        diffs=[("harness.agents.parse_diff", 800, 8000), ("harness.agents.c02_entry", 150, 1200), ("harness.agents.c02_edge", 1200, 4000)],
         extra_run=tables,
         tables=regen,
         trusted=[
